@@ -57,7 +57,7 @@ class ServiceDecorator(Decorator):
         # This condition still does not verify the domain. Keep the behavior
         # for transition compatibility and revisit it after the legacy
         # subsystem is removed.
-        if self.args[1] in (SERVICE_RELOAD, SERVICE_JUPYTER_KERNEL_START):
+        if self.args[1].lower() in (SERVICE_RELOAD, SERVICE_JUPYTER_KERNEL_START):
             # Keep this wording for transition compatibility. Once the legacy
             # subsystem is removed, update the message and related tests.
             raise SyntaxError(
